@@ -1,0 +1,10 @@
+//go:build verif
+
+package hdrhist
+
+// VerifProbe exposes, for the verification harness only (build tag
+// verif), the counts index and the equivalent range the histogram
+// computes for v, and the length of its counts array.
+func (h *Histogram) VerifProbe(v int64) (idx int, countsLen int, lo, hi int64) {
+	return h.countsIndexFor(v), int(h.countsLen), h.lowestEquivalentValue(v), h.highestEquivalentValue(v)
+}
